@@ -495,6 +495,9 @@ def r_ptb(repo, rep, writer_only=False, RT='R20.6', RE='R20.5'):
         for e in st.events:
             if e[0] != 'call' or not ((e[1][1][0] == 'name' and e[1][1][1] in closers) or (e[1][1][0] == 'func' and e[1][1][1] in closers)) or not e[1][2]:
                 continue
+            from ..core import enclosing_function as _encl
+            if _encl(e[-1]) is not rc_:
+                continue            # (the closing routine calling itself for the text without its last bracket, read in place)
             item_t = e[1][2][0]
             n_close += 1
             guards = [(c, pol) for c, pol, _ in st.conds]
